@@ -40,8 +40,10 @@ pub fn remove_protection_of_long_packet(
         return Ok(None);
     }
 
-    let specific_bits = LongSpecificBits::from(*first_byte);
-    let pn_len = specific_bits.pn_len()?;
+    // The reserved bits are not checked here: until the packet protection has been removed
+    // as well the packet is not authenticated, and garbage in these bits only means that the
+    // packet was corrupted or forged. They are checked by `check_long_reserved_bits` afterwards.
+    let pn_len = (*first_byte & LongSpecificBits::PN_LEN_MASK) + 1;
     let (_, undecoded_pn) = take_pn_len(pn_len)(max_pn_buf).unwrap();
 
     Ok(Some(undecoded_pn))
@@ -82,11 +84,26 @@ pub fn remove_protection_of_short_packet(
         return Ok(None);
     }
 
+    // see remove_protection_of_long_packet: the reserved bits are checked after authentication
     let clear_bits = ShortSpecificBits::from(*first_byte);
-    let pn_len = clear_bits.pn_len()?;
+    let pn_len = (*first_byte & ShortSpecificBits::PN_LEN_MASK) + 1;
     let (_, undecoded_pn) = take_pn_len(pn_len)(max_pn_buf).unwrap();
 
     Ok(Some((undecoded_pn, clear_bits.key_phase())))
+}
+
+/// Checks the reserved bits of the first byte of a long packet whose header and packet
+/// protection have both been removed: a non-zero value is a connection error of type
+/// PROTOCOL_VIOLATION ([Section 17.2](https://www.rfc-editor.org/rfc/rfc9000.html#section-17.2-8.2)).
+pub fn check_long_reserved_bits(first_byte: u8) -> Result<(), Error> {
+    LongSpecificBits::from(first_byte).pn_len().map(|_| ())
+}
+
+/// Checks the reserved bits of the first byte of a short packet whose header and packet
+/// protection have both been removed
+/// ([Section 17.3.1](https://www.rfc-editor.org/rfc/rfc9000.html#section-17.3.1-4.8)).
+pub fn check_short_reserved_bits(first_byte: u8) -> Result<(), Error> {
+    ShortSpecificBits::from(first_byte).pn_len().map(|_| ())
 }
 
 /// Decrypt the body of a packet, applicable to both long and short packets.
